@@ -118,7 +118,7 @@ def _strip(x) -> str:
     return re.sub(r"#\d+", "", repr(x))
 
 
-def _evaluate_world(ctx, use_fp: bool, kinds, ret: str, abi_out: bool):
+def _evaluate_world(ctx, use_fp: bool, kinds, ret: str, abi_out: bool, n_locals: int = 0, body_has_return: bool = False):
     """kinds: list of 'value' | 'ref' | 'abi' per parameter.  Returns the recorded
     SubroutineDeclaration(...) term and the arguments handed to the user's implementation."""
     model = ctx.model
@@ -131,9 +131,17 @@ def _evaluate_world(ctx, use_fp: bool, kinds, ret: str, abi_out: bool):
     def impl(*args, **kwargs):
         captured["args"] = list(args)
         captured["kwargs"] = dict(kwargs)
+        # the user's function allocates n_locals frame variables (abi.Uint64() etc. inside the body): under frame
+        # pointers these are appended to the local types of the proto that is current while the body is built
+        proto = (captured.get("ctx") or [None])[-1]
+        if n_locals and isinstance(proto, Rec) and proto.is_call("Proto"):
+            layout = proto.kwargs.get("mem_layout")
+            q.need(isinstance(layout, Rec) and layout.is_call("ProtoStackLayout") and isinstance(layout.args[1], list), "Proto's mem_layout is not ProtoStackLayout(args, locals, ...)")
+            layout.args[1].extend([TT.attrs["uint64"]] * n_locals)
+            captured["allocated"] = n_locals
         return body
 
-    body = Sym("user-body", attrs={"trace": "trace"}, methods={"type_of": lambda: TT.attrs["none" if (abi_out or ret == "none") else ret], "has_return": lambda: False})
+    body = Sym("user-body", attrs={"trace": "trace"}, methods={"type_of": lambda: TT.attrs["none" if (abi_out or ret == "none") else ret], "has_return": lambda: body_has_return})
     TT = Sym("TealType", attrs={k: Rec("name", f"TealType.{k}") for k in ("none", "uint64", "bytes", "anytype")})
 
     def spec(name):
@@ -179,8 +187,8 @@ def _evaluate_world(ctx, use_fp: bool, kinds, ret: str, abi_out: bool):
             return SE_sym
         if t == "OutputKwArgInfo":
             return OK_sym
-        if isinstance(e, ast.Attribute) and u(e.value) == "self" and e.attr.startswith("__"):
-            raise Unknown()
+        if isinstance(e, ast.Call) and u(e.func) == "_frame_pointer_context" and len(e.args) == 1:
+            captured.setdefault("ctx", []).append(me.ev(e.args[0]))
         raise Unknown()
 
     def setup(me):
@@ -309,7 +317,29 @@ def r02_2_convention(ctx):
                     elif deferred is not None:
                         problems.append(f"unexpected deferred expression {_strip(deferred)} (no frame locals exist in this routine)")
                 ctx.check(not problems, "R02.2", construct, "; ".join(problems), f.where, fact={"prologue": [_strip(x) for x in prologue], "bound": [_strip(x) for x in loaded]})
-    ctx.require_min("R02.2", 40)
+    # frame locals allocated by the body: the returned value must be moved to frame cell 0 before every retsub
+    for kinds in ([], ["value"], ["value", "ref"]):
+        for ret, abi_out in (("none", False), ("uint64", False), ("bytes", False), ("none", True)):
+            for n_locals in (0, 1, 3):
+                for body_ret in (False, True):
+                    construct = f"evaluate[fp,{'/'.join(kinds) or 'no-params'},{'abi-output' if abi_out else ret},{n_locals} body local(s),body {'always returns' if body_ret else 'falls through'}]"
+                    try:
+                        val, cap, me = _evaluate_world(ctx, True, kinds, ret, abi_out, n_locals, body_ret)
+                    except Raised as r:
+                        ctx.bad("R02.2", construct, f"evaluate raises {r.exc_text}", f.where)
+                        continue
+                    deferred = val.args[2] if len(val.args) > 2 else val.kwargs.get("deferred_expr")
+                    q.need(n_locals == 0 or cap.get("allocated") == n_locals, f"{f.fq}: the body is no longer built inside _frame_pointer_context(proto)")
+                    need_bury = (not abi_out) and ret != "none" and n_locals > 0
+                    if need_bury:
+                        t = _strip(deferred)
+                        ok = isinstance(deferred, Rec) and deferred.is_call("FrameBury") and len(deferred.args) >= 2 and deferred.args[1] == 0
+                        why = f"a value-returning routine with {n_locals} frame local(s) must move its result to frame cell 0 before every retsub (retsub hands back cell 0, i.e. the first local); deferred expression is {t}"
+                    else:
+                        ok = deferred is None
+                        why = f"unexpected deferred expression {_strip(deferred)}"
+                    ctx.check(ok, "R02.2", construct, why, f.where, fact={"deferred": _strip(deferred)})
+    ctx.require_min("R02.2", 80)
 
 
 def r02_1_call_site(ctx):
